@@ -204,7 +204,16 @@ pub fn check_lattice(world: &World, t: &Tok, lat: &LatticeObs, m: &Matrix, path_
                             "dictionary {} row {} ({:?}) matches the normalised text at char {} but has no lattice node", dic, row, e.key, cb)))
                     }
                     Some(n) => {
-                        if n.left_id as i32 != e.left as i32 || n.right_id as i32 != e.right as i32 || n.cost != e.cost {
+                        // a user-dictionary row declaring cost -32768 asks the loader for an estimate: its node must carry
+                        // what the loaded dictionary's word parameters say (and the declared connection ids)
+                        let auto = dic > 0 && e.cost == i16::MIN;
+                        let want_cost = if auto {
+                            rep.count("auto_cost_candidates", 1);
+                            world.dict.lexicon().get_word_param(sudachi::dic::word_id::WordId::new(dic as u8, row as u32)).2
+                        } else {
+                            e.cost
+                        };
+                        if n.left_id as i32 != e.left as i32 || n.right_id as i32 != e.right as i32 || n.cost != want_cost {
                             return Err(("candidate_params".into(), format!(
                                 "dictionary {} row {} ({:?}) declares ({},{},{}) but its node carries ({},{},{})",
                                 dic, row, e.key, e.left, e.right, e.cost, n.left_id, n.right_id, n.cost)));
